@@ -789,7 +789,29 @@ static const char *const xfmts[] = {
 	"%Y-%m-%dT%H:%M:%S", "%H:%M:%S.%N", "%s", "ymd", "ywd", "ymcw", "yd", "bizda",
 };
 #define NXFMT	((int)(sizeof(xfmts) / sizeof(*xfmts)))
-static const char *const xnames[] = {"ldn", "lilian", "mdn", "matlab", "jdn", "julian"};
+static const char *const xnames[] = {"ldn", "lilian", "mdn", "matlab", "jdn", "julian", "hijri", "ummulqura"};
+/* the Hijri calendar (Umm al-Qura table of data/ummulqura.tab, years 1318..1450, year-month-day): texts that are certainly
+ * no date of it.  A day the month does not have (30 or 31 in a 29-day month) is clamped like 2012-04-31 is, not judged. */
+static const struct {
+	const char *text;
+	const char *what;
+} xhijri_texts[] = {
+	{"1445", "a truncated text (year only, month or day missing)"},
+	{"1445-", "a truncated text (year only, month or day missing)"},
+	{"1445-09", "a truncated text (year only, month or day missing)"},
+	{"1445-09-", "a truncated text (year only, month or day missing)"},
+	{"1445--01", "a truncated text (year only, month or day missing)"},
+	{"1445-13-01", "a month or day outside 1..12 / 1..31"},
+	{"1445-00-01", "a month or day outside 1..12 / 1..31"},
+	{"1445-09-00", "a month or day outside 1..12 / 1..31"},
+	{"1445-09-32", "a month or day outside 1..12 / 1..31"},
+	{"2024-03-11", "a year outside the table (1318..1450)"},
+	{"1317-01-01", "a year outside the table (1318..1450)"},
+	{"1451-01-01", "a year outside the table (1318..1450)"},
+	{"9999-01-01", "a year outside the table (1318..1450)"},
+	{"0000-01-01", "a year outside the table (1318..1450)"},
+};
+#define NXHIJRI	((int)(sizeof(xhijri_texts) / sizeof(*xhijri_texts)))
 static const char *const xname_texts[] = {"", " ", ".5", "x", "-", "+", "\t"};
 
 struct xtok {
@@ -897,13 +919,32 @@ unit_X(uint64_t idx)
 		const char *nm = xnames[idx - NXFMT];
 		for (size_t k = 0; k < sizeof(xname_texts) / sizeof(*xname_texts); k++) {
 			snprintf(cas, sizeof(cas), "X %llu %d", (unsigned long long)idx, (int)k);
-			snprintf(lab, sizeof(lab), "format name %s", nm);
+			snprintf(lab, sizeof(lab), "format name %s", nm[0] == 'h' || nm[0] == 'u' ? "hijri/ummulqura" : nm);
 			if (k == 2 && (nm[0] == 'j')) {
 				continue;	/* ".5" is a number where a fraction is expected */
 			}
 			if (nondate_check(P_DT, nm, xname_texts[k], "a text without any digit in front (empty, blank, tab, sign, bare fraction, letter)", lab,
 					  (double)strlen(xname_texts[k]), cas)) {
 				return 1;
+			}
+		}
+		if (nm[0] == 'h' || nm[0] == 'u') {
+			int base = (int)(sizeof(xname_texts) / sizeof(*xname_texts));
+			/* the date-only parser knows the name as well */
+			for (int k = 0; k < base; k++) {
+				snprintf(cas, sizeof(cas), "X %llu %d", (unsigned long long)idx, base + k);
+				if (nondate_check(P_D, nm, xname_texts[k], "a text without any digit in front (empty, blank, tab, sign, bare fraction, letter)", lab,
+						  (double)strlen(xname_texts[k]), cas)) {
+					return 1;
+				}
+			}
+			for (int k = 0; k < NXHIJRI; k++) {
+				for (int f = 0; f < 2; f++) {
+					snprintf(cas, sizeof(cas), "X %llu %d", (unsigned long long)idx, 2 * base + 2 * k + f);
+					if (nondate_check(f ? P_D : P_DT, nm, xhijri_texts[k].text, xhijri_texts[k].what, lab, (double)strlen(xhijri_texts[k].text), cas)) {
+						return 1;
+					}
+				}
 			}
 		}
 		return 0;
@@ -1192,7 +1233,7 @@ main(int argc, char *argv[])
 		"behind the format's terminator. H/h: every string over the format alphabet of length <= 3 (thorough 4) with 0x80, 0xc3, 0xff or the UTF-8 letter e-acute inserted at "
 		"every position 0..3, for the formatters (buffer sizes 0 1 2 8 40) and the parsers. X: %d formats (each specifier in a determining context, calendar names) x the text the formatter prints for them with ONE mutation that makes it "
 		"certainly no date under the format (numeric field -> letter / nothing / beyond its documented range, name -> Xyz, literal or inner separator of %%F/%%T -> letter / digit) and "
-		"the day-number names with empty, blank, '.5', 'x' texts: dt_strpdt/dt_strpd must answer unknown. non-trivial = case with at least one report. Not judged: WHICH value a parser returns (C09) and whether partial dates are dates.",
+		"the day-number names and hijri/ummulqura with empty, blank, '.5', 'x' texts, hijri/ummulqura also with truncated texts, month/day 0, month 13, day 32 and years outside the table 1318..1450 (a day the month does not have is clamped like 2012-04-31, not judged): dt_strpdt/dt_strpd must answer unknown. non-trivial = case with at least one report. Not judged: WHICH value a parser returns (C09) and whether partial dates are dates.",
 		(int)NNAMED, NFIXED, NINFMT, NVAL, NDTDUR, NDDUR, BSZ_MAX, (int)XC_NSPECS, NXFMT);
 	ex_meta("bound", "format strings for the parsers: length <= %d (%llu strings); input strings: length <= %d (%llu) ; duration strings: length <= %d; "
 		"format strings for the formatters: length <= %d (%llu strings) x all sizes 0..%d; specifier list: %d singles + %d ordered pairs (both tiers)",
